@@ -163,6 +163,22 @@ Theorem C01_cube_is_three_point_grid :
   /\ happly D (cube_T D false corners (vtab D e) (vtab D c) (tab D D d)) X
   = gen_pts D WORLD CUBE_CORNERS three sp (vtab D c) (tab D D d) X.
 Proof. exact (cube_is_three_point_grid K Kf Kc). Qed.
+
+(* 8b. two domain objects: with to_cube given, Cube.transform (points and vectors) is "this cube -> world -> other cube";
+       in particular WORLD -> CUBE maps into the OTHER cube *)
+Theorem C01_cube_two_through_world :
+  forall (D : nat) (e c te tc : nat -> K) (d td : nat -> nat -> K) (X : list K),
+  D = 2%nat \/ D = 3%nat -> (forall i, (i < D)%nat -> e i <> 0) -> (forall i, (i < D)%nat -> te i <> 0) -> length X = D ->
+  let E := vtab D e in let C := vtab D c in let Dm := tab D D d in
+  let TE := vtab D te in let TC := vtab D tc in let TD := tab D D td in
+  happly D (cube2_T D false false false E C Dm TE TC TD) X
+    = happly D (cube_T D false false TE TC TD) (happly D (cube_T D true false E C Dm) X) /\
+  mv (cube2_T D false false true E C Dm TE TC TD) X = mv (cube_Tv D false TE TC TD) (mv (cube_Tv D true E C Dm) X) /\
+  happly D (cube2_T D true false false E C Dm TE TC TD) X = happly D (cube_T D false false TE TC TD) X /\
+  mv (cube2_T D true false true E C Dm TE TC TD) X = mv (cube_Tv D false TE TC TD) X /\
+  happly D (cube2_T D false true false E C Dm TE TC TD) X = happly D (cube_T D true false E C Dm) X /\
+  mv (cube2_T D false true true E C Dm TE TC TD) X = mv (cube_Tv D true E C Dm) X.
+Proof. exact (cube_two_through_world K Kf Kc). Qed.
 End Statements.
 
 Print Assumptions C01_inverse.
